@@ -75,7 +75,7 @@ DeclProduct ==
     {OptionCall(X, KwIf("type", t) \o KwIf("value", v) \o KwIf("choices", c) \o KwIf("min", mm[1]) \o KwIf("max", mm[2])) :
         t \in TypeLits, v \in ValueLits, c \in ChoiceLits, mm \in MinMaxLits}
 
-NameLits == {"x", "opt-1", "Opt_2", "X9", "prefix", "libdir", "namingscheme", "debug", "werror", "unity", "backend",
+NameLits == {"", "x", "opt-1", "Opt_2", "X9", "prefix", "libdir", "namingscheme", "debug", "werror", "unity", "backend",
              "default_library", "b_x", "b_", "backend_x", "c_x", "cpp_std", "rust_x", "vala_x", "nasm_x", "cx", "b-x",
              "bx_y", "build_x", "x_c", "lib_c_x", "platlib", "python.platlibdir", "a.b", "a:b", "a b", "build.x", "sub:x"}
 NameStmts == {OptionCall(<<S(n)>>, <<T("string")>>) : n \in NameLits}
